@@ -54,7 +54,9 @@ UNIT = Unit(
            rewrites=[CLONE],
            obligation="exactly one visible implementation => the call type is equated with an instance of it; none or several => an error, nothing equated",
            contract="requires ty == self_ty,\n"
-                    "ensures overload_ok(*genv, trait_name, op, *self_ty, norm_arg_types@, *norm_ret_ty, old(diagnostics)@, final(diagnostics)@, old(still_pending)@, final(still_pending)@, *final(changed)),",
+                    "ensures overload_ok(*genv, trait_name, op, *self_ty, norm_arg_types@, *norm_ret_ty, old(diagnostics)@, final(diagnostics)@, old(still_pending)@, final(still_pending)@, *final(changed)),\n"
+                    "  final(diagnostics)@.len() >= old(diagnostics)@.len(), final(still_pending)@.len() >= old(still_pending)@.len(),\n"
+                    "  final(diagnostics)@.len() + final(still_pending)@.len() == old(diagnostics)@.len() + old(still_pending)@.len() + 1,   // accounted (U-SOLVELOOP rests on it)\n",
            ghost=[(r"@after-loop:__fk\d+\s*<\s*__dv", "", "let ghost __imp1 = impls@;"),
                   ("match slice_shape(&impls) {", "line-before",
                    "proof { assert forall|k: int| 0 <= k < impls@.len() implies visible_impl(*genv, trait_ident.0@, *self_ty, op.0@, #[trigger] impls@[k]) by { "
